@@ -2186,8 +2186,18 @@ ASSUMPTIONS = [
 
 
 def run(tier, seed):
+    # per-class LDAP wrappers and the option-indexed list codec: Codec/LdapCls.v, Props/C15Ldap.v, harness/props/c15ldap.py
+    from . import c15ldap
+
+    def extra(r, cases, obs):
+        cov = _extra(r, cases, obs)
+        u = c15ldap.stage(r, seed, tier)
+        cov['extra_obligations'] = cov.get('extra_obligations', 0) + u.pop('ldapcls_obligations')
+        cov.update(u)
+        return cov
     core.standard_run(PID, tier, seed, {
-        'model_vos': ['Codec/C15Run', 'Gen/Tables'], 'table_sections': ['c15_names', 'c15_events', 'c15_rules', 'c15_ldap', 'source_shape'],
+        'model_vos': ['Codec/C15Run', 'Gen/Tables'],
+        'table_sections': ['c15_names', 'c15_events', 'c15_rules', 'c15_ldap', 'source_shape'] + list(c15ldap.SECTIONS),
         'preamble': PREAMBLE, 'run_fn': RUN_FN, 'in_type': 'c15case',
         'gen_case': gen_case, 'impl_run': impl_run, 'expected': expected, 'case_term': case_term,
         'oracle': oracle, 'nontrivial': nontrivial,
@@ -2199,11 +2209,15 @@ def run(tier, seed):
                 'the malformed stream with probability 1/4 (inputs outside the stated domain; decoders are fed '
                 'mutated and arbitrary strings); encode cases carry a second nearby value for the injectivity '
                 'oracle; non-trivial = not the empty/zero/default object of its kind',
-        'trusted': TRUSTED, 'assumptions': ASSUMPTIONS, 'anchors': ANCHORS, 'extra': _extra,
+        'trusted': list(TRUSTED) + list(c15ldap.TRUSTED), 'assumptions': list(ASSUMPTIONS) + list(c15ldap.ASSUMPTIONS),
+        'anchors': ANCHORS, 'extra': extra,
     })
 
 
 def replay_case(case):
+    if isinstance(case, dict) and case.get('engine') == 'E-ldapcls':
+        from . import c15ldap
+        return c15ldap.replay_case(case)
     v = oracle(case, impl_run(case))
     if isinstance(v, list):
         return (', '.join(x[0] for x in v), '; '.join(x[1] for x in v)) if v else None
